@@ -295,11 +295,16 @@ fn gen_format0(rng: &mut Rng, p: &mut Vec<u32>) -> Vec<u8> {
 
 /// format 4 with `nseg` segments; mostly sorted and disjoint, ending with the 0xFFFF segment
 fn gen_format4(rng: &mut Rng, p: &mut Vec<u32>) -> Vec<u8> {
+    gen_format4_at(rng, p, None)
+}
+
+/// `base`: where the first segment starts (the symbol area for (3,0) sub-tables), gaps stay small
+fn gen_format4_at(rng: &mut Rng, p: &mut Vec<u32>, base: Option<u32>) -> Vec<u8> {
     let nseg = 1 + rng.below(7) as usize;
     let malformed_layout = rng.chance(1, 8);
     let mut starts = vec![];
     let mut ends = vec![];
-    let mut cur: u32 = rng.below(0x200) as u32;
+    let mut cur: u32 = base.unwrap_or(rng.below(0x200) as u32);
     for i in 0..nseg {
         let last = i + 1 == nseg;
         if last && rng.chance(4, 5) {
@@ -311,6 +316,7 @@ fn gen_format4(rng: &mut Rng, p: &mut Vec<u32>) -> Vec<u8> {
             0 => 0,
             1 => 1,
             2 => rng.below(50) as u32,
+            _ if base.is_some() => rng.below(12) as u32,
             _ => rng.below(0x3000) as u32,
         };
         let size = match rng.below(8) {
@@ -753,6 +759,7 @@ fn gen_f(rng: &mut Rng) -> String {
     let mut probes: Vec<u32> = vec![];
     let mut recs: Vec<(u32, u32, usize)> = vec![]; // platform, encoding, subtable number
     let mut subs: Vec<Vec<u8>> = vec![];
+    let mut symbol = false;
     for _ in 0..nrec {
         let (pl, en) = if rng.chance(1, 12) {
             (rng.below(6) as u32, rng.below(12) as u32)
@@ -774,6 +781,20 @@ fn gen_f(rng: &mut Rng) -> String {
                     _ => gen_format12(rng, &mut p),
                 },
                 (3, 4) => gen_format2(rng, &mut p),
+                (3, 0) => {
+                    symbol = true;
+                    let base = if rng.chance(2, 3) { 0xF020 + rng.below(0x20) as u32 } else { 0x20 + rng.below(0x20) as u32 };
+                    let v = gen_format4_at(rng, &mut p, Some(base));
+                    // the single-byte / private-use twin of every boundary probe
+                    for x in p.clone() {
+                        if (0xF000..=0xF0FF).contains(&x) {
+                            p.push(x - 0xF000);
+                        } else if x < 0x100 {
+                            p.push(0xF000 + x);
+                        }
+                    }
+                    v
+                }
                 _ => match rng.below(6) {
                     0 => gen_format12(rng, &mut p),
                     1 => gen_format6(rng, &mut p),
@@ -820,6 +841,7 @@ fn gen_f(rng: &mut Rng) -> String {
         v.extend_from_slice(s);
     }
     let os2 = match rng.below(8) {
+        _ if symbol && rng.chance(1, 2) => "61472".to_string(),
         0 | 1 | 2 => "-".to_string(),
         3 => "x".to_string(),
         4 => "32".to_string(),
@@ -839,6 +861,15 @@ fn gen_f(rng: &mut Rng) -> String {
     if rng.chance(1, 2) {
         around(&mut p, 0xF000);
         around(&mut p, 0xF0FF);
+    }
+    if symbol {
+        // single-byte codes and their private-use twins
+        for _ in 0..2 {
+            let c = 0x20 + rng.below(0xE0) as u32;
+            p.insert(0, c);
+            p.insert(0, 0xF000 + c);
+        }
+        p.insert(0, rng.below(0x20) as u32);
     }
     // keep scalar values only
     p.retain(|&c| char::from_u32(c).is_some());
